@@ -131,6 +131,40 @@ theorem add_zero_operand {a z : Geonum ℝ} (ha : a.angle.Inv) (hz : z.angle.Inv
   rw [hcz, add_zero, hzm, add_zero] at h
   exact h
 
+/-- a running sum stays inside the domain: at every step the accumulator and the next term are canonical with non-negative
+    magnitudes and a blade sum of at most `2^40` ("for as long as they stay inside these bounds") -/
+def RunOK : Geonum ℝ → List (Geonum ℝ) → Prop
+  | _, [] => True
+  | acc, x :: xs => acc.angle.Inv ∧ x.angle.Inv ∧ 0 ≤ acc.mag ∧ 0 ≤ x.mag ∧ acc.angle.blade + x.angle.blade ≤ 2 ^ 40 ∧
+      RunOK (acc.add x) xs
+
+/-- the accumulated tolerance of a running sum: one addition tolerance per step, each scaled by the magnitudes at that step -/
+noncomputable def runTol : Geonum ℝ → List (Geonum ℝ) → ℝ
+  | _, [] => 0
+  | acc, x :: xs => 1 / 10 ^ 10 * (1 + acc.mag + x.mag) + runTol (acc.add x) xs
+
+/-- (E) **running sums**: folding `+` over any sequence reproduces the component-wise sum of all the Cartesian points to within the
+    accumulated tolerance — by induction over the sequence, any length -/
+theorem running_sum_cartesian (l : List (Geonum ℝ)) (acc : Geonum ℝ) (h : RunOK acc l) :
+    ‖cart (l.foldl Geonum.add acc) - (cart acc + (l.map cart).sum)‖ ≤ runTol acc l := by
+  induction l generalizing acc with
+  | nil => simp [runTol]
+  | cons x xs ih =>
+    obtain ⟨ha, hx, h0a, h0x, hcb, hrest⟩ := h
+    have h1 := add_refines ha hx h0a h0x hcb
+    have h2 := ih (acc.add x) hrest
+    simp only [List.foldl_cons, List.map_cons, List.sum_cons, runTol]
+    have e : cart (xs.foldl Geonum.add (acc.add x)) - (cart acc + (cart x + (xs.map cart).sum))
+        = (cart (xs.foldl Geonum.add (acc.add x)) - (cart (acc.add x) + (xs.map cart).sum))
+          + (cart (acc.add x) - (cart acc + cart x)) := by ring
+    rw [e]
+    calc ‖(cart (xs.foldl Geonum.add (acc.add x)) - (cart (acc.add x) + (xs.map cart).sum))
+          + (cart (acc.add x) - (cart acc + cart x))‖
+        ≤ ‖cart (xs.foldl Geonum.add (acc.add x)) - (cart (acc.add x) + (xs.map cart).sum)‖
+          + ‖cart (acc.add x) - (cart acc + cart x)‖ := norm_add_le _ _
+      _ ≤ runTol (acc.add x) xs + 1 / 10 ^ 10 * (1 + acc.mag + x.mag) := add_le_add h2 h1
+      _ = 1 / 10 ^ 10 * (1 + acc.mag + x.mag) + runTol (acc.add x) xs := by ring
+
 end E
 
 /-! PARTIAL (B-tier, stated in DESIGN §6): the float statement — the same refinement for binary64 with a rounding bound that
